@@ -141,10 +141,9 @@ Fixpoint validate_loop (sg : dsig) (line : option nat) (options : list (str * st
         | Ok converted =>
             do r <- validate_loop sg line rest;
             let '(no, ve, un) := r in Ok ((name, converted) :: no, ve, un)
-        | Raise ValueError | Raise TypeError =>
+        | Raise _ =>         (* `except Exception` (commit 155ac3f): every failure of a converter is reported *)
             do r <- validate_loop sg line rest;
             let '(no, ve, un) := r in Ok (no, W_invalid name line :: ve, un)
-        | Raise e => Raise e
         end
   end.
 
